@@ -13,12 +13,28 @@ Open Scope Z_scope.
 
 Definition case := TcpTrace.case.
 
-(* C04's monitor (2 = its own known pattern C04-edge-rounding, reported by the main phase) and the
-   stall clause of C02 (2 = known zero-window stall) *)
+(* the path MTU in force: the link MTU, lowered by every reported next-hop MTU (the smallest one
+   wins, also when several reports are folded into one notification); from the step of a report on,
+   every emitted IPv4 packet that carries data fits it: payload + 20 (IP) + 20 (TCP) + 12 when
+   timestamps are in use (SACK blocks are not counted: lenient) *)
+Fixpoint pmtu_checks (pm : Z) (steps : list obs) : bool :=
+  match steps with
+  | [] => true
+  | o :: rest =>
+      let pm' := if C01mtu.is_mtu_step o then fold_left Z.min (C01mtu.reported_mtus o) pm else pm in
+      let hdr := 40 + (if tsOk (o_st o) then 12 else 0) in
+      forallb (fun f => let n := Z.of_nat (length (f_data f)) in (n =? 0) || (n + hdr <=? Z.max pm' (hdr + 1))) (o_frames o)
+      && pmtu_checks pm' rest
+  end.
+
+(* C04's monitor (2 = its own known pattern C04-edge-rounding, reported by the main phase), the
+   reported-MTU clause, and the stall clause of C02 (2 = known zero-window stall) *)
 Definition spec (c : case) : Z :=
   let b := C04.spec c in
   let d := C02.spec c in
-  if negb ((b =? 0) || (b =? 2)) then 1 else if (d =? 0) || (d =? 2) then 0 else 1.
+  let pm0 := match c with CTrace cfg _ _ _ => if cfg_get cfg 3 =? 0 then 1500 else cfg_get cfg 3 end in
+  let p := match c with CTrace cfg _ _ steps => if cfg_get cfg 4 =? 0 then pmtu_checks pm0 steps else true end in
+  if negb ((b =? 0) || (b =? 2)) then 1 else if negb p then 1 else if (d =? 0) || (d =? 2) then 0 else 1.
 
 Definition tag (c : case) : Z := C01mtu.tag c.
 Definition corr (c : case) : Z := C01mtu.corr c.
